@@ -86,7 +86,7 @@ package cert
 //@   ensures [qc-valid] result == nil ==> qcok(c, proposal.Block.cert)
 //@   ensures [inv] blockchain.binv(c.blockchain) && blockchain.bmaps(c.blockchain)
 //@   ensures [stores] blockchain.entrieskept()
-//@   modifies c.blockchain.blocks[*], c.blockchain.blockAtHeight[*], c.blockchain.pendingFetch[*], c.blockchain.eventLoop.handlers[*], alloc
+//@   modifies c.blockchain.blocks[*], c.blockchain.blockAtHeight[*], c.blockchain.pendingFetch[*], c.blockchain.eventLoop.handlers[*], trace(att), alloc
 
 // History facts: qcAccepted(c, qc) names the event "VerifyQuorumCert(qc) returned nil at
 // authority c" (likewise for TCs and aggregate QCs). They are uninterpreted and only ever
